@@ -40,6 +40,19 @@ class C14(XsProp):
                 cs.append('xs limits %s | eval %s | dump | limits 1000 - - | eval %s | stack' % (lim, h, probe))
             else:
                 cs.append('xs limits %s | compile %s | stepcheck 2000 | dump | limits 1000 - - | eval %s | stack' % (lim, h, probe))
+        # a word that only produces a value (reads of the binary input included) and is refused by the stack limit changes nothing:
+        # the dump after the refusal equals the dump before it, and the same word succeeds once the limit is raised
+        self.refused = set()
+        producers = ['u8', 'i8', 'u16', 'i16le', 'u32be', 'u64', 'f32', 'f64le', 'cstr', 'nulbytestr', 'remain', 'offset', 'depth', 'dup', 'over', '7',
+                     '"s"', 'nil', 'true', '|ff|', 'vv', 'big?', 'input']
+        for w_ in producers:
+            for k in (1, 2, 3, 5) if w_ != 'over' else (2, 3, 5):
+                for pos in (0, 8, 24):
+                    pre = '9 var vv ' + ' '.join(str(40 + i) for i in range(k)) + (' %d seek' % pos if pos else '')
+                    case = ('xs limits 3000 - - | input 4142430044454600ff0102030405060708090a0b0c0d0e0f 0 192 | eval %s | stacklimit %d | dump | eval %s | dump | '
+                            'stacklimit - | eval %s | stack' % (hexsrc(pre), k, hexsrc(w_), hexsrc(w_)))
+                    cs.append(case)
+                    self.refused.add(case)
         # a meta block runs on the same physical stack: with k items already there it may push only S - k more
         self.meta_expect = {}
         for i in range(n // 4):
@@ -93,6 +106,19 @@ class C14(XsProp):
             steps = c.split(' | ')
             outs = o.split(' | ')
             if len(steps) != len(outs) or c in getattr(self, 'meta_expect', {}):
+                continue
+            if c in getattr(self, 'refused', ()):
+                n += 1
+                # the failed source's code stays compiled (ip, code and debug-map sizes grow): compare what the word works on
+                nometer = lambda d: [field(d, f_) for f_ in ('ds', 'rs', 'loops', 'special', 'heap', 'flow', 'nested')]
+                w_ = src_of(c)[1]
+                if not outs[5].startswith('ELimit'):
+                    fails.append(('case: %s\nresult: %s' % (c, o[:1500]), '`%s` was not refused although the stack is at its limit' % w_))
+                elif nometer(outs[4]) != nometer(outs[6]):
+                    fails.append(('case: %s\nword: %s\nbefore: %s\nafter the refusal: %s' % (c, w_, outs[4], outs[6]),
+                                  '`%s`, refused by the stack limit, changed the state (what it consumed is lost once the limit is raised)' % w_))
+                elif outs[8] != 'ok':
+                    fails.append(('case: %s\nresult: %s' % (c, o[:1500]), '`%s` still fails after the stack limit was lifted' % w_))
                 continue
             lim = None
             base_ds = 0
